@@ -596,6 +596,23 @@ def XtermLike (ti : Terminfo) : Bool := tiOk ti && dOk (derive ti)
 /-- the class without the corner-trick condition: all that the per-command effects `CapsFx` depend on -/
 def CapsOk (ti : Terminfo) : Bool := tiCapsOk ti && dOk (derive ti)
 
+/-- `ich1` = ICH with the default count: `CSI @` -/
+def ichStd : Bytes := [27,91,64]
+
+/-- drawCell paints the bottom-right cell with the insert-character trick on this terminal (tscreen.go:815) -/
+def usesCornerTrick (ti : Terminfo) : Bool := ti.autoMargin && ti.disableAutoMargin.isEmpty && !ti.insertChar.isEmpty
+
+/-- **the class of corner-trick terminal descriptions Layer B is proved for**: the strings of the class (`CapsOk`), the draw path
+    uses the bottom-right insert-character trick, and the insert-character string is (padding removed) ICH -/
+def CornerLike (ti : Terminfo) : Bool := CapsOk ti && usesCornerTrick ti && (stripPadding ti.insertChar == ichStd)
+
+theorem capsOk_of_cl {ti : Terminfo} (h : CornerLike ti = true) : CapsOk ti = true := by
+  simp only [CornerLike, Bool.and_eq_true] at h; exact h.1.1
+theorem cl_corner {ti : Terminfo} (h : CornerLike ti = true) : usesCornerTrick ti = true := by
+  simp only [CornerLike, Bool.and_eq_true] at h; exact h.1.2
+theorem cl_ich {ti : Terminfo} (h : CornerLike ti = true) : stripPadding ti.insertChar = [27, 91, 64] := by
+  simp only [CornerLike, Bool.and_eq_true, beq_iff_eq] at h; exact h.2
+
 theorem capsOk_of_xl {ti : Terminfo} (h : XtermLike ti = true) : CapsOk ti = true := by
   simp only [XtermLike, tiOk, CapsOk, Bool.and_eq_true] at h ⊢; exact ⟨h.1.1, h.2⟩
 
